@@ -213,17 +213,18 @@ fn qdocs() -> Array1<&'static str> {
 /// exact observation of a fitted vectoriser (column order included): for round trips of the
 /// fitted value itself
 fn cv_exact_obs(ob: &mut Ob, prefix: &str, cv: &CountVectorizer) {
+    // reproducible part: counts per word (columns ordered by word)
+    cv_canonical_obs(ob, prefix, cv);
     ob.u1(&format!("{}nentries", prefix), cv.nentries());
-    ob.st(&format!("{}vocabulary", prefix), cv.vocabulary().join("|"));
+    // exact part: column order and raw matrices must be identical too; their content depends on
+    // the hash order of the run that fitted the vocabulary, so a difference is reported opaquely
+    ob.st(&format!("{}vocabulary{}", prefix, Ob::OPAQUE), cv.vocabulary().join("|"));
     for (name, d) in [("train", docs()), ("query", qdocs())] {
-        match cv.transform(&d) {
-            Ok(m) => {
-                let dense = m.to_dense();
-                ob.us(&format!("{}transform.{}.shape", prefix, name), [dense.nrows(), dense.ncols()]);
-                ob.us(&format!("{}transform.{}", prefix, name), dense.iter().cloned())
-            }
-            Err(e) => ob.st(&format!("{}transform.{}.error", prefix, name), e.to_string()),
-        };
+        if let Ok(m) = cv.transform(&d) {
+            let dense = m.to_dense();
+            ob.us(&format!("{}transform.{}.shape", prefix, name), [dense.nrows(), dense.ncols()]);
+            ob.us(&format!("{}transform.{}.raw{}", prefix, name, Ob::OPAQUE), dense.iter().cloned());
+        }
     }
 }
 
@@ -260,14 +261,29 @@ fn valid_params_obs(ob: &mut Ob, v: &CountVectorizerValidParams) {
     ob.bools("tokenizer_function_is_some", [v.tokenizer_function().is_some()]);
 }
 
+/// split expression with upper-case classes: what it matches depends on how the case of the
+/// documents and of the expression is handled, i.e. on state beyond the pattern text
+const CASED_REGEX: &str = r"\b(?:[a-z]{2,}|[A-Z]\d+)\b";
+/// split expression with upper-case literals
+const CASED_LITERAL_REGEX: &str = r"\b(?:A320|B52|Boeing\d+|[a-z]+)\b";
+
+/// valid points first, the points whose name starts with `invalid` last
 fn cv_points() -> Vec<(&'static str, CountVectorizerParams)> {
     vec![
         ("default", CountVectorizer::params()),
         ("ngram12_df_stopwords", CountVectorizer::params().n_gram_range(1, 2).document_frequency(0.2, 0.9).stopwords(&["two", "nine"])),
         ("regex_tokenizer_case_sensitive_max5", CountVectorizer::params().tokenizer(Tokenizer::Regex(r"\b[a-zA-Z]+\b".to_string())).convert_to_lowercase(false).normalize(false).max_features(Some(5))),
+        ("cased_regex_lowercase_on", CountVectorizer::params().tokenizer(Tokenizer::Regex(CASED_REGEX.to_string()))),
+        ("cased_regex_lowercase_off", CountVectorizer::params().tokenizer(Tokenizer::Regex(CASED_REGEX.to_string())).convert_to_lowercase(false)),
+        ("cased_literal_regex_lowercase_on_ngram12", CountVectorizer::params().tokenizer(Tokenizer::Regex(CASED_LITERAL_REGEX.to_string())).n_gram_range(1, 2)),
+        ("cased_literal_regex_lowercase_off_no_normalize", CountVectorizer::params().tokenizer(Tokenizer::Regex(CASED_LITERAL_REGEX.to_string())).convert_to_lowercase(false).normalize(false)),
+        ("inline_case_insensitive_flag_regex", CountVectorizer::params().tokenizer(Tokenizer::Regex(r"(?i)\b(?:[A-Z]\d+|[a-z]{3,})\b".to_string())).convert_to_lowercase(false)),
         ("invalid_flipped_ngrams", CountVectorizer::params().n_gram_range(3, 1)),
         ("invalid_regex", CountVectorizer::params().tokenizer(Tokenizer::Regex("(unclosed".to_string()))),
     ]
+}
+fn cv_valid_points() -> Vec<(&'static str, CountVectorizerParams)> {
+    cv_points().into_iter().filter(|(n, _)| !n.starts_with("invalid")).collect()
 }
 
 fn cv_params(r: &mut Runner) {
@@ -324,6 +340,11 @@ fn function_tokenizer_params(o: &mut Out, tfidf: bool) {
         tfidf_canonical_obs(&mut ob, "", m);
         ob.done()
     };
+    if tfidf {
+        audit(o, &t);
+    } else {
+        audit(o, &p);
+    }
     let original: Ob = if tfidf { canon_tf(&o.need("fit", t.fit(&docs()))) } else { canon_cv(&o.need("fit", p.fit(&docs()))) };
     // sanity of the harness: the function tokeniser really differs from the default regex
     let with_regex = canon_cv(&CountVectorizer::params().n_gram_range(1, 2).fit(&docs()).unwrap());
@@ -381,7 +402,7 @@ fn function_tokenizer_params(o: &mut Out, tfidf: bool) {
 }
 
 fn cv_valid_params(r: &mut Runner) {
-    for (n, p) in cv_points().into_iter().take(3) {
+    for (n, p) in cv_valid_points() {
         r.inst(n, |o| {
             let v = o.need("check", p.check());
             let obs = |v: &CountVectorizerValidParams| {
@@ -400,10 +421,54 @@ fn cv_valid_params(r: &mut Runner) {
             round_trip(o, &Spec::plain(&obs).with_maps(), &v);
         });
     }
+    r.inst("function_tokenizer", function_tokenizer_valid_params);
+}
+
+/// CHECKED parameters with a function tokeniser: the restored value has lost the fn pointer and
+/// has no setter to get it back; it must refuse to fit (guard) rather than fit with the regex
+fn function_tokenizer_valid_params(o: &mut Out) {
+    let v = o.need("check", CountVectorizer::params().tokenizer(Tokenizer::Function(space_tokenizer)).n_gram_range(1, 2).check());
+    audit(o, &v);
+    let canon_cv = |cv: &CountVectorizer| {
+        let mut ob = Ob::new();
+        cv_canonical_obs(&mut ob, "", cv);
+        ob.done()
+    };
+    let original = canon_cv(&o.need("fit", v.fit(&docs())));
+    for f in BINARY_FORMATS {
+        let fname = f.name();
+        o.cnt.evals += 1;
+        o.cnt.nontrivial += 1;
+        o.cnt.guard_checks += 1;
+        *o.per_format.entry(fname).or_insert(0) += 1;
+        let first = match lvmc_core::guarded(|| f.ser(&v).and_then(|b| f.de::<CountVectorizerValidParams>(&b)).map(|rv| rv.fit(&docs()).map(|m| canon_cv(&m)).map_err(|e| e.to_string()))) {
+            Ok(Ok(x)) => x,
+            Ok(Err(e)) => {
+                o.viol("function_tokenizer.round_trip_error", fname, format!("checked parameters with a function tokeniser do not survive serialisation: {}", e));
+                continue;
+            }
+            Err(p) => {
+                o.viol("function_tokenizer.panic", fname, format!("using restored checked parameters with a function tokeniser panicked: {}", p));
+                continue;
+            }
+        };
+        match first {
+            Err(_) => {} // refuses: the guard behaviour
+            Ok(m) if m == original => {}
+            Ok(m) => {
+                let (_, what) = original.diff(&m).unwrap();
+                o.viol(
+                    "function_tokenizer.restored_checked_params_fit_silently_with_regex",
+                    fname,
+                    format!("CHECKED parameters (CountVectorizerValidParams) built with Tokenizer::Function, once restored, fit WITHOUT error using the split regex instead of the (not serialisable) function: `tokenizer_deserialization_guard` is consulted by CountVectorizerParams::check_ref and by the fitted vectoriser's transform, but not by CountVectorizerValidParams::fit, and the checked type has no way to supply the function again; the model differs: {}", what),
+                );
+            }
+        }
+    }
 }
 
 fn cv_model(r: &mut Runner) {
-    for (n, p) in cv_points().into_iter().take(3) {
+    for (n, p) in cv_valid_points() {
         r.inst(n, |o| {
             let m = o.need("fit", p.fit(&docs()));
             let obs = |m: &CountVectorizer| {
@@ -411,7 +476,7 @@ fn cv_model(r: &mut Runner) {
                 cv_exact_obs(&mut ob, "", m);
                 ob.done()
             };
-            round_trip(o, &Spec::plain(&obs).with_maps(), &m);
+            round_trip(o, &Spec::plain(&obs).with_maps().opaque_debug(), &m);
         });
     }
     r.inst("fit_vocabulary", |o| {
@@ -421,12 +486,13 @@ fn cv_model(r: &mut Runner) {
             cv_exact_obs(&mut ob, "", m);
             ob.done()
         };
-        round_trip(o, &Spec::plain(&obs).with_maps(), &m);
+        round_trip(o, &Spec::plain(&obs).with_maps().opaque_debug(), &m);
     });
     r.inst("function_tokenizer_guard", |o| {
         let m = o.need("fit", CountVectorizer::params().tokenizer(Tokenizer::Function(space_tokenizer)).n_gram_range(1, 2).fit(&docs()));
         let mut ob0 = Ob::new();
         cv_exact_obs(&mut ob0, "", &m);
+        audit(o, &m);
         for f in BINARY_FORMATS {
             let fname = f.name();
             o.cnt.evals += 1;
@@ -483,12 +549,13 @@ fn tfidf_method(r: &mut Runner) {
 }
 
 fn tfidf_exact_obs(ob: &mut Ob, prefix: &str, m: &FittedTfIdfVectorizer) {
-    ob.u1(&format!("{}nentries", prefix), m.nentries()).st(&format!("{}vocabulary", prefix), m.vocabulary().join("|")).st(&format!("{}method", prefix), format!("{:?}", m.method()));
+    tfidf_canonical_obs(ob, prefix, m);
+    ob.u1(&format!("{}nentries", prefix), m.nentries());
+    ob.st(&format!("{}vocabulary{}", prefix, Ob::OPAQUE), m.vocabulary().join("|"));
     for (name, d) in [("train", docs()), ("query", qdocs())] {
-        match m.transform(&d) {
-            Ok(x) => ob.a2(&format!("{}transform.{}", prefix, name), &x.to_dense()),
-            Err(e) => ob.st(&format!("{}transform.{}.error", prefix, name), e.to_string()),
-        };
+        if let Ok(x) = m.transform(&d) {
+            ob.a2(&format!("{}transform.{}.raw{}", prefix, name, Ob::OPAQUE), &x.to_dense());
+        }
     }
 }
 
@@ -517,6 +584,9 @@ fn tfidf_points() -> Vec<(&'static str, TfIdfVectorizer)> {
         // (TfIdfVectorizer has no public setter for `method`: only Smooth is constructible)
         ("ngram12_stopwords", TfIdfVectorizer::default().n_gram_range(1, 2).stopwords(&["two"]).document_frequency(0.1, 1.0)),
         ("regex_max4", TfIdfVectorizer::default().tokenizer(Tokenizer::Regex(r"\b[a-z]+\b".to_string())).max_features(Some(4)).convert_to_lowercase(false).normalize(false)),
+        ("cased_regex_lowercase_on", TfIdfVectorizer::default().tokenizer(Tokenizer::Regex(CASED_REGEX.to_string()))),
+        ("cased_regex_lowercase_off", TfIdfVectorizer::default().tokenizer(Tokenizer::Regex(CASED_REGEX.to_string())).convert_to_lowercase(false)),
+        ("cased_literal_regex_lowercase_on", TfIdfVectorizer::default().tokenizer(Tokenizer::Regex(CASED_LITERAL_REGEX.to_string()))),
         ("invalid_zero_ngram", TfIdfVectorizer::default().n_gram_range(0, 1)),
     ]
 }
@@ -551,7 +621,7 @@ fn tfidf_params(r: &mut Runner) {
 }
 
 fn tfidf_model(r: &mut Runner) {
-    for (n, p) in tfidf_points().into_iter().take(3) {
+    for (n, p) in tfidf_points().into_iter().filter(|(n, _)| !n.starts_with("invalid")) {
         r.inst(n, |o| {
             let m = o.need("fit", p.fit(&docs()));
             let obs = |m: &FittedTfIdfVectorizer| {
@@ -559,13 +629,14 @@ fn tfidf_model(r: &mut Runner) {
                 tfidf_exact_obs(&mut ob, "", m);
                 ob.done()
             };
-            round_trip(o, &Spec::plain(&obs).with_maps(), &m);
+            round_trip(o, &Spec::plain(&obs).with_maps().opaque_debug(), &m);
         });
     }
     r.inst("function_tokenizer_guard", |o| {
         let m = o.need("fit", TfIdfVectorizer::default().tokenizer(Tokenizer::Function(space_tokenizer)).fit(&docs()));
         let mut ob0 = Ob::new();
         tfidf_exact_obs(&mut ob0, "", &m);
+        audit(o, &m);
         for f in BINARY_FORMATS {
             let fname = f.name();
             o.cnt.evals += 1;
@@ -788,7 +859,7 @@ fn tree_valid_obs<F: Float>(v: &DecisionTreeValidParams<F, usize>, x: &Array2<F>
 
 fn tree_params(r: &mut Runner) {
     fn go<F: SF>(o: &mut Out, p: DecisionTreeParams<F, usize>) {
-        let (x, y) = blobs::<F>(90, 3, 3, 38);
+        let (x, y) = tree_data::<F>();
         let q = pool::<F>(3, Some(&x));
         let obs = |p: &DecisionTreeParams<F, usize>| {
             let mut ob = Ob::new();
@@ -814,7 +885,7 @@ fn tree_params(r: &mut Runner) {
 
 fn tree_valid_params(r: &mut Runner) {
     fn go<F: SF>(o: &mut Out, p: DecisionTreeParams<F, usize>) {
-        let (x, y) = blobs::<F>(90, 3, 3, 38);
+        let (x, y) = tree_data::<F>();
         let q = pool::<F>(3, Some(&x));
         let v = o.need("check", p.check());
         let obs = |v: &DecisionTreeValidParams<F, usize>| tree_valid_obs(v, &x, &y, &q);
@@ -828,8 +899,17 @@ fn tree_valid_params(r: &mut Runner) {
     }
 }
 
+/// blob records with labels that need two different features to be told apart (class 0: x1 <= 1;
+/// class 1: x1 > 1 and x0 + x2 <= 3; class 2: the rest), so that the fitted trees split on more than
+/// feature 0 (a tree whose every node has feature_idx 0 could lose that field unnoticed)
+fn tree_data<F: Float>() -> (Array2<F>, Array1<usize>) {
+    let (x, _) = blobs::<F>(90, 3, 3, 38);
+    let y = Array1::from_iter(x.rows().into_iter().map(|r| if r[1] <= F::cast(1.0) { 0usize } else if r[0] + r[2] <= F::cast(3.0) { 1 } else { 2 }));
+    (x, y)
+}
+
 fn fitted_tree<F: Float, L: linfa::Label + std::fmt::Debug + Default>(lab: fn(usize) -> L, named: bool, depth: Option<usize>) -> (DecisionTree<F, L>, Array2<F>) {
-    let (x, y) = blobs::<F>(90, 3, 3, 38);
+    let (x, y) = tree_data::<F>();
     let mut ds = Dataset::new(x.clone(), y.mapv(lab));
     if named {
         ds = ds.with_feature_names(vec!["sepal length", "petal \"width\"", "x_3"]);
